@@ -79,6 +79,8 @@ class Checker:
             or not bny.MIN_SUPPORTED_VERSION <= self.model.version <= bny.VERSION
         ):
             raise LvsModelError(f"Unsupported LVS model version {self.model.version}")
+        if self.model.start_id is None or self.model.named_pattern_cnt is None:
+            raise LvsModelError("LVS model without StartId or NamedPatternCnt")
         self._model_fns = set()
         self._trust_roots = set()
         in_deg_nodes = set()
